@@ -47,7 +47,11 @@ pub fn exec(db: &dyn IndexDatabase, range: FileRange) -> Option<Vec<InlayHint>> 
         return Some(Vec::new());
     }
 
-    let Some(iter) = symbol_map.iter_symbols_in_range(range) else {
+    // a hint may lie inside the range although the name it belongs to lies before it
+    // (`A<1, 2>` with a range that starts after `A`): look at every symbol of the file and keep
+    // the hints by their own position below
+    let whole_file = FileRange::new(range.file, db.parse(range.file).syntax_node().text_range());
+    let Some(iter) = symbol_map.iter_symbols_in_range(whole_file) else {
         tracing::info!("no classes found in range: {range:?}");
         return None;
     };
